@@ -1,0 +1,13 @@
+//go:build verif
+
+package inverted
+
+// Exported wrappers of the sortable key encoders for verification harnesses.
+
+func VerifToByteSortable[T Invertable](v T) ([]byte, error) {
+	return toByteSortable(v)
+}
+
+func VerifFromByteSortable[T Invertable](b []byte, v *T) error {
+	return fromByteSortable(b, v)
+}
